@@ -6,9 +6,22 @@ before strings before dates before objects, values that are equal compare as equ
 equally, and object members are found by any key equal to the one used to store them."
 
 Model: `Gsu.Model.Value` (the definitions `Drive/C28.lean` executes), mirroring the repaired
-number hash (fixes/02) and object hash (fixes/11). Lemmas: `Gsu/Proofs/Value.lean`.
+number hash (fixes/02) and object hash (fixes/11). Lemmas: `Gsu/Proofs/Value.lean` (antisymmetry,
+hashes), `Value2.lean` (transitivity), `Value3.lean` (`FromInt (ToInt64 d) = d`, Equal ⇒ Compare 0),
+`Value4.lean` (Equal is an equivalence, pigeonhole for the named members, hash of containers, Get),
+`Value5.lean` (`FromInt` monotone on int64; the exact extent of KF-C28-1 on numbers).
+
+Hypotheses that appear below, and why they are not restrictions of the code:
+* `ValWF v` — every decimal inside `v` is in the canonical form `dnum.New` produces (zero, an
+  infinity, or a 16 digit coefficient) and the named members of every object inside `v` have
+  pairwise non-Equal keys (the invariant of the hash map `named`). Both are representation
+  invariants of the implementation; without the second one Equal objects need not hash equally
+  (`example` below).
+* `ValAll NumNorm v` — the canonical-decimal half of `ValWF`, for the members `Compare` looks at.
+* `NoBigIntMeetsDec a b c` — the documented open finding KF-C28-1 (an int of more than 16 digits
+  is rounded when compared with a decimal) excluded; `compare_trans_counter` is the witness.
 -/
-import Gsu.Proofs.Value
+import Gsu.Proofs.Value5
 namespace Gsu.Props.C28
 open Gsu.Val Gsu.Num Gsu.Dnum
 
@@ -25,6 +38,134 @@ theorem type_order (a b : Value) (h : order a ≠ order b) :
 
 example : order (.str .except [97]) ≠ order (.ts 1034273 0 1) ∧
     Val.compare (.str .except [97]) (.ts 1034273 0 1) = -1 := by decide
+
+/-! ### transitivity -/
+
+/-- Compare is transitive on ALL values — booleans, numbers in every representation, strings,
+dates and timestamps, across types, and objects nested to any depth (lexicographic on the list
+members) — under the one documented exception KF-C28-1: the numbers in the three values are all
+ints (of any size), or are all decimals / ints of at most 16 digits (`NoBigIntMeetsDec`).
+FULL up to the open finding (it is false without the hypothesis: `compare_trans_counter`). -/
+theorem compare_trans (a b c : Value) (h : NoBigIntMeetsDec a b c)
+    (h1 : Val.compare a b ≤ 0) (h2 : Val.compare b c ≤ 0) : Val.compare a c ≤ 0 :=
+  Val.compare_trans a b c h h1 h2
+
+/-- the strict forms `a < b ≤ c → a < c` and `a ≤ b < c → a < c` (so `Compare = 0` is an
+equivalence compatible with the order: a total preorder). Same hypothesis. -/
+theorem compare_trans_strict (a b c : Value) (h : NoBigIntMeetsDec a b c)
+    (h1 : Val.compare a b ≤ 0) (h2 : Val.compare b c ≤ 0)
+    (hs : Val.compare a b < 0 ∨ Val.compare b c < 0) : Val.compare a c < 0 :=
+  Val.compare_trans_strict a b c h h1 h2 hs
+
+/-- generic form: Compare is transitive on every class of values whose numbers compare
+transitively among themselves (the two instances used above: ints only; decimals and ints of at
+most 16 digits). -/
+theorem compare_trans_on {P : Num → Prop} (hP : NumTrans P) (a b c : Value)
+    (pa : ValAll P a) (pb : ValAll P b) (pc : ValAll P c)
+    (h1 : Val.compare a b ≤ 0) (h2 : Val.compare b c ≤ 0) : Val.compare a c ≤ 0 :=
+  Val.compare_trans_on hP a b c pa pb pc h1 h2
+
+/-- the number instance (the former `compare_trans_num_partial`): no int of more than 16 digits
+involved -/
+theorem compare_trans_num (a b c : Num)
+    (ha : ∀ n, asInt a = some n → n.natAbs < 10 ^ 16) (hb : ∀ n, asInt b = some n → n.natAbs < 10 ^ 16)
+    (hc : ∀ n, asInt c = some n → n.natAbs < 10 ^ 16)
+    (h1 : Num.compare a b ≤ 0) (h2 : Num.compare b c ≤ 0) : Num.compare a c ≤ 0 :=
+  Num.compare_trans_small a b c ha hb hc h1 h2
+
+example : ∀ n, asInt (.i64 100000) = some n → n.natAbs < 10 ^ 16 := by
+  intro n h; simp [asInt] at h; subst h; decide
+
+-- non-vacuity: a nested object with a decimal, a 16 digit int, strings and a date satisfies the
+-- hypothesis (second disjunct); a 19 digit int next to small ints the first one
+example : ValAll small16 (.obj false (.cons (.num (.dn ⟨1500000000000000, 1, 1⟩))
+    (.cons (.obj true (.cons (.num (.i64 9999999999999999)) (.cons (.str .concat [1]) .nil)) .nil)
+      (.cons (.date 1034273 0) .nil))) .nil) := by
+  simp only [ValAll, ListAll, small16, asInt, Option.some.injEq, and_true]
+  refine ⟨fun n h => by simp at h, fun n h => ?_⟩
+  subst h; decide
+
+example : ValAll isInt (.obj false (.cons (.num (.i64 9223372036854775807)) (.cons (.num (.smi 1)) .nil)) .nil) := by
+  simp [ValAll, ListAll, isInt, asInt]
+
+/-- counter-witness (open finding KF-C28-1): 10^16+1 ≤ 1e16 (decimal) ≤ 10^16 but 10^16+1 > 10^16 -/
+theorem compare_trans_counter :
+    Num.compare (.i64 10000000000000001) (.dn (fromInt 10000000000000000)) ≤ 0 ∧
+    Num.compare (.dn (fromInt 10000000000000000)) (.i64 10000000000000000) ≤ 0 ∧
+    Num.compare (.i64 10000000000000001) (.i64 10000000000000000) = 1 := by decide
+
+/-- `FromInt` is monotone on the whole int64 range, the 17–19 digit ints that go through the
+rounding loop of `New` included: rounding can merge neighbours but never swaps them. FULL. -/
+theorem fromInt_monotone (x y : Int) (hx : inInt64 x) (hy : inInt64 y) (h : x ≤ y) :
+    Dnum.compare (fromInt x) (fromInt y) ≤ 0 :=
+  Dnum.fromInt_mono x y hx hy h
+
+/-- The exact extent of KF-C28-1 on numbers: `Compare` is transitive for EVERY triple of numbers
+(any representation, ints of any size in the int64 range, any decimals) except the pattern
+int ≤ decimal ≤ int of `compare_trans_counter`. FULL (characterisation of the finding). -/
+theorem compare_trans_num_unless (a b c : Num) (ha : InRange a) (hb : InRange b) (hc : InRange c)
+    (hx : ¬((asInt a).isSome = true ∧ (asInt b).isSome = false ∧ (asInt c).isSome = true))
+    (h1 : Num.compare a b ≤ 0) (h2 : Num.compare b c ≤ 0) : Num.compare a c ≤ 0 :=
+  Num.compare_trans_unless a b c ha hb hc hx h1 h2
+
+-- non-vacuity: a 19 digit int, a 17 digit int and a decimal in the other two orders
+example : InRange (.i64 9223372036854775807) ∧ InRange (.dn ⟨1000000000000000, 1, 17⟩) ∧
+    ¬((asInt (.dn ⟨1000000000000000, 1, 17⟩)).isSome = true ∧ (asInt (.i64 10000000000000001)).isSome = false ∧
+      (asInt (.i64 9223372036854775807)).isSome = true) := by
+  refine ⟨?_, ?_, by decide⟩
+  · intro n h; simp only [asInt, Option.some.injEq] at h; subst h; decide
+  · intro n h; simp [asInt] at h
+
+/-! ### Equal ⇒ Compare 0 -/
+
+/-- `FromInt (ToInt64 d) = d` for every canonical decimal that converts to an int64 (1 to 19
+digits, the 17–19 digit ones through the rounding loop of `New`): the fact behind int-vs-decimal
+Equal/Compare consistency. FULL. -/
+theorem fromInt_toInt64 (d : Dnum) (hd : Norm d) (i : Int) (h : toInt64 d = some i) : fromInt i = d :=
+  Dnum.fromInt_toInt64 d hd i h
+
+example : Norm ⟨9223372036854775, 1, 19⟩ ∧ toInt64 ⟨9223372036854775, 1, 19⟩ = some 9223372036854775000 :=
+  ⟨Or.inr (Or.inr (Or.inr ⟨Or.inl rfl, by decide, by decide⟩)), by decide⟩
+
+/-- Equal numbers compare as equal in all nine combinations of smi / SuInt64 / SuDnum
+(decimals canonical). FULL. -/
+theorem equal_implies_compare_eq_num (a b : Num) (ha : NumNorm a) (hb : NumNorm b)
+    (h : Num.equal a b = true) : Num.compare a b = 0 :=
+  Num.compare_of_equal a b ha hb h
+
+/-- the same without the canonical-form hypothesis when both are ints or both are decimals
+(the former `equal_implies_compare_eq_partial`) -/
+theorem equal_implies_compare_eq_same_kind (a b : Num) (hk : (asInt a).isSome = (asInt b).isSome)
+    (h : Num.equal a b = true) : Num.compare a b = 0 :=
+  Num.compare_of_equal_same_kind a b hk h
+
+example : (asInt (.smi 5)).isSome = (asInt (.i64 5)).isSome ∧ Num.equal (.smi 5) (.i64 5) = true := by decide
+
+/-- Equal values compare as equal: every type, every representation, nested objects. FULL. -/
+theorem equal_implies_compare_eq (a b : Value) (pa : ValAll NumNorm a) (pb : ValAll NumNorm b)
+    (h : equal a b = true) : Val.compare a b = 0 :=
+  Val.compare_of_equal a b pa pb h
+
+-- the canonical-form hypothesis is needed (and is an invariant of `dnum.New`): the non-canonical
+-- 0.0000000000000005e16 is Equal to the int 5 but does not compare 0 with it
+example : Num.equal (.dn ⟨5, 1, 16⟩) (.smi 5) = true ∧ Num.compare (.dn ⟨5, 1, 16⟩) (.smi 5) = 1 := by decide
+
+/-! ### Equal is an equivalence -/
+
+/-- Equal is reflexive (all values). FULL. -/
+theorem equal_refl (a : Value) : equal a a = true := Val.equal_refl a
+
+/-- Equal is symmetric on well-formed values — for objects this is the pigeonhole argument:
+`deepEqual` looks the members of `x` up in `y` only. FULL. -/
+theorem equal_symm (a b : Value) (wa : ValWF a) (wb : ValWF b) (h : equal a b = true) :
+    equal b a = true := Val.equal_symm a b wa wb h
+
+/-- Equal is transitive on well-formed values (int ~ decimal ~ int included). FULL. -/
+theorem equal_trans (a b c : Value) (wa : ValWF a) (wb : ValWF b) (wc : ValWF c)
+    (h1 : equal a b = true) (h2 : equal b c = true) : equal a c = true :=
+  Val.equal_trans a b c wa wb wc h1 h2
+
+/-! ### Equal ⇒ same Hash -/
 
 /-- Equal numbers hash equally whatever their representations (smi, SuInt64, SuDnum). FULL
 (for the repaired `SuDnum.Hash` / `SuDnum.Equal`). -/
@@ -43,14 +184,30 @@ theorem hash_respects_equal_scalar (a b : Value) (ha : order a ≠ 4) (h : equal
 theorem hash2_respects_equal (a b : Value) (h : equal a b = true) : hash2 a = hash2 b :=
   Val.hash2_of_equal a b h
 
-/-- Containers: two Equal objects whose named members are the same up to insertion order and
-memberwise Equal (`NPermEq`) hash equally (repaired, order independent `SuObject.Hash`).
+/-- The named members of two Equal well-formed objects are the same up to insertion order and
+memberwise Equal: `NPermEq` is DERIVED from the lookup based `deepEqual` (equal sizes + every
+member of x found in y) by a pigeonhole argument using the map invariant of x. FULL. -/
+theorem named_perm_of_equal (r1 r2 : Bool) (l1 l2 : VList) (n1 n2 : NList)
+    (w1 : ValWF (.obj r1 l1 n1)) (w2 : ValWF (.obj r2 l2 n2))
+    (h : equal (.obj r1 l1 n1) (.obj r2 l2 n2) = true) : NPermEq n1 n2 :=
+  Val.NPermEq_of_equal r1 r2 l1 l2 n1 n2 w1 w2 h
 
-FULL statement wanted: `equal x y = true → hash x = hash y` for all objects. Missing: deriving
-`NPermEq n1 n2` from `equal` (lookup based `namedSub` + equal sizes) needs that the keys of each
-object are pairwise not Equal (map invariant) and that Equal is an equivalence on the keys
-(a pigeonhole argument); the hypothesis `hp` states its conclusion. -/
-theorem hash_respects_equal_obj_partial (r1 r2 : Bool) (l1 l2 : VList) (n1 n2 : NList)
+/-- Containers: Equal well-formed objects hash equally (repaired, order independent
+`SuObject.Hash`). FULL — the former hypothesis `NPermEq n1 n2` is now a consequence. -/
+theorem hash_respects_equal_obj (r1 r2 : Bool) (l1 l2 : VList) (n1 n2 : NList)
+    (w1 : ValWF (.obj r1 l1 n1)) (w2 : ValWF (.obj r2 l2 n2))
+    (h : equal (.obj r1 l1 n1) (.obj r2 l2 n2) = true) :
+    Val.hash (.obj r1 l1 n1) = Val.hash (.obj r2 l2 n2) :=
+  Val.hash_of_equal _ _ w1 w2 h
+
+/-- Equal well-formed values hash equally: all types, representations and containers. FULL. -/
+theorem hash_respects_equal (a b : Value) (wa : ValWF a) (wb : ValWF b) (h : equal a b = true) :
+    Val.hash a = Val.hash b :=
+  Val.hash_of_equal a b wa wb h
+
+/-- the former `hash_respects_equal_obj_partial` (permutation given instead of derived; no
+well-formedness needed) -/
+theorem hash_respects_equal_obj_perm (r1 r2 : Bool) (l1 l2 : VList) (n1 n2 : NList)
     (h : equal (.obj r1 l1 n1) (.obj r2 l2 n2) = true) (hp : NPermEq n1 n2) :
     Val.hash (.obj r1 l1 n1) = Val.hash (.obj r2 l2 n2) :=
   Val.hash_of_equal_obj r1 r2 l1 l2 n1 n2 h hp
@@ -60,34 +217,38 @@ example : NPermEq (.cons (.num (.i64 100000)) (.bool true) (.cons (.str .str [10
     (.cons (.str .concat [107]) (.num (.smi 1)) (.cons (.num (.dn ⟨1000000000000000, 1, 6⟩)) (.bool true) .nil)) :=
   .trans .swap (.cons (by decide) (by decide) (.cons (by decide) (by decide) .nil))
 
-/-- Transitivity on numbers, the part of the order where representations mix: if no int of more
-than 16 digits is involved, `a ≤ b ≤ c → a ≤ c`.
+-- non-vacuity of `ValWF`: the two objects above (a decimal key, distinct keys) are well-formed
+-- and Equal
+example :
+    ValWF (.obj false .nil (.cons (.num (.i64 100000)) (.bool true) (.cons (.str .str [107]) (.num (.smi 1)) .nil))) ∧
+    ValWF (.obj true .nil (.cons (.str .concat [107]) (.num (.smi 1)) (.cons (.num (.dn ⟨1000000000000000, 1, 6⟩)) (.bool true) .nil))) ∧
+    equal (.obj false .nil (.cons (.num (.i64 100000)) (.bool true) (.cons (.str .str [107]) (.num (.smi 1)) .nil)))
+      (.obj true .nil (.cons (.str .concat [107]) (.num (.smi 1)) (.cons (.num (.dn ⟨1000000000000000, 1, 6⟩)) (.bool true) .nil))) = true := by
+  refine ⟨?_, ?_, by decide⟩
+  · simp only [ValWF, ListWF, NamedWF, KeysDistinct, NumNorm, true_and, and_true]
+    decide
+  · simp only [ValWF, ListWF, NamedWF, KeysDistinct, NumNorm, true_and, and_true]
+    exact ⟨Or.inr (Or.inr (Or.inr ⟨Or.inl rfl, by decide, by decide⟩)), by decide⟩
 
-FULL statement wanted: transitivity for all values. It is FALSE for the current code when an int
-of more than 16 digits meets a decimal (`compare_trans_counter`); transitivity for strings,
-dates and nested objects is not proved yet (correspondence + direct oracle only). -/
-theorem compare_trans_num_partial (a b c : Num)
-    (ha : ∀ n, asInt a = some n → n.natAbs < 10 ^ 16) (hb : ∀ n, asInt b = some n → n.natAbs < 10 ^ 16)
-    (hc : ∀ n, asInt c = some n → n.natAbs < 10 ^ 16)
-    (h1 : Num.compare a b ≤ 0) (h2 : Num.compare b c ≤ 0) : Num.compare a c ≤ 0 :=
-  Num.compare_trans_small a b c ha hb hc h1 h2
+-- the map invariant is needed: with a duplicated key on the left, `deepEqual` holds and the
+-- hashes differ
+example : equal dupLeft dupRight = true ∧ Val.hash dupLeft ≠ Val.hash dupRight := by decide
 
-example : ∀ n, asInt (.i64 100000) = some n → n.natAbs < 10 ^ 16 := by
-  intro n h; simp [asInt] at h; subst h; decide
+/-! ### Get -/
 
-/-- counter-witness (open finding): 10^16+1 ≤ 1e16 (decimal) ≤ 10^16 but 10^16+1 > 10^16 -/
-theorem compare_trans_counter :
-    Num.compare (.i64 10000000000000001) (.dn (fromInt 10000000000000000)) ≤ 0 ∧
-    Num.compare (.dn (fromInt 10000000000000000)) (.i64 10000000000000000) ≤ 0 ∧
-    Num.compare (.i64 10000000000000001) (.i64 10000000000000000) = 1 := by decide
+/-- "object members are found by any key equal to the one used to store them": `Get` with Equal
+keys (another number or string representation, an Equal object) gives the same result. FULL. -/
+theorem get_by_equal_key (ob key key' : Value) (wo : ValWF ob) (wk : ValWF key) (wk' : ValWF key')
+    (h : equal key key' = true) : get ob key = get ob key' :=
+  Val.get_congr ob key key' wo wk wk' h
 
-/-- Equal numbers compare as equal: ints among themselves, decimals among themselves. The mixed
-case (`toInt64 d = some i → Compare(i, d) = 0`) needs `fromInt i = d` for normalised `d`, which is
-not proved yet — hence `_partial`; the direct oracle `equal-compare` checks it on the code. -/
-theorem equal_implies_compare_eq_partial (a b : Num) (hk : (asInt a).isSome = (asInt b).isSome)
-    (h : Num.equal a b = true) : Num.compare a b = 0 :=
-  Num.compare_of_equal_same_kind a b hk h
+/-- a named member stored under `k` is what the lookup returns for every key Equal to `k` -/
+theorem named_get_stored (n : NList) (k v key : Value) (wk : ValWF key) (wn : NamedWF n)
+    (hd : KeysDistinct n) (hm : (k, v) ∈ n.toList) (he : equal k key = true) :
+    namedGet key n = some v :=
+  Val.namedGet_stored key wk n k v wn hd hm he
 
-example : (asInt (.smi 5)).isSome = (asInt (.i64 5)).isSome ∧ Num.equal (.smi 5) (.i64 5) = true := by decide
+example : get (.obj false .nil (.cons (.num (.i64 100000)) (.bool true) .nil)) (.num (.dn ⟨1000000000000000, 1, 6⟩))
+    = some (.bool true) := by rfl
 
 end Gsu.Props.C28
